@@ -1,4 +1,7 @@
 import PysphVerif.Lemmas.InletOutlet
+import Mathlib.Tactic.Ring
+import Mathlib.Tactic.Linarith
+import Mathlib.Algebra.Order.Field.Basic
 /-!
 # C16 — inlets and outlets move each particle across exactly once
 
@@ -473,5 +476,142 @@ recycled, never consumed) -/
 theorem inlet_size_invariant (c : Cfg α) (ops : List (Op α)) (s0 s : State α) (a0 a : Acct)
     (h : run c ops (s0, a0) = some (s, a)) : s.inlet.length = s0.inlet.length :=
   (run_count c ops _ _ h).2
+
+/-! ## zone geometry over an ordered field -/
+
+section field
+variable {K : Type} [Field K] [LinearOrder K] [IsStrictOrderedRing K]
+
+/-- zone id 0 ("in the fluid") means: not beyond the interface by more than the
+tolerance — or, a quirk of the `if/elif/else`, exactly `length + tolerance`
+beyond it (neither `<` nor `>` holds there) -/
+theorem zoneId_eq_zero_iff (eps L d : K) (hL : 0 ≤ L) :
+    zoneId eps L d = 0 ↔ d ≤ eps ∨ d - L = eps := by
+  unfold zoneId
+  constructor
+  · intro h
+    by_cases h1 : eps < d ∧ d - L < eps
+    · simp [h1] at h
+    · by_cases h2 : eps < d - L
+      · simp [h1, h2] at h
+      · by_cases h3 : eps < d
+        · right
+          have : ¬ d - L < eps := fun hh => h1 ⟨h3, hh⟩
+          exact le_antisymm (not_lt.mp h2) (not_lt.mp this)
+        · left; exact not_lt.mp h3
+  · rintro (h | h)
+    · have h1 : ¬ (eps < d ∧ d - L < eps) := fun hh => absurd hh.1 (not_lt.mpr h)
+      have h2 : ¬ eps < d - L := by
+        intro hh; have : d - L ≤ d := by linarith
+        linarith
+      simp [h1, h2]
+    · have h1 : ¬ (eps < d ∧ d - L < eps) := fun hh => by rw [h] at hh; exact lt_irrefl _ hh.2
+      have h2 : ¬ eps < d - L := by rw [h]; exact lt_irrefl _
+      simp [h1, h2]
+
+theorem zoneId_eq_one_iff (eps L d : K) : zoneId eps L d = 1 ↔ eps < d ∧ d - L < eps := by
+  unfold zoneId
+  by_cases h1 : eps < d ∧ d - L < eps
+  · simp [h1]
+  · by_cases h2 : eps < d - L <;> simp [h1, h2]
+
+theorem zoneId_eq_two_iff (eps L d : K) (hL : 0 ≤ L) : zoneId eps L d = 2 ↔ eps < d - L := by
+  unfold zoneId
+  by_cases h1 : eps < d ∧ d - L < eps
+  · have : ¬ eps < d - L := not_lt.mpr (le_of_lt h1.2)
+    simp [h1, this]
+  · by_cases h2 : eps < d - L <;> simp [h1, h2]
+
+/-- recycling moves a particle exactly one zone length along the normal:
+its signed distance grows by `length · |n|²` -/
+theorem signedDist_shiftUp (zn : Zone K) (p : Particle K) :
+    signedDist zn (shiftUp zn p)
+      = signedDist zn p + zn.len * (zn.nx * zn.nx + zn.ny * zn.ny + zn.nz * zn.nz) := by
+  simp only [signedDist, shiftUp]; ring
+
+/-- **recycled one zone length upstream**: an inlet particle that crossed the
+interface by less than one zone length is, after recycling, back inside the
+inlet zone (unit normal) -/
+theorem recycled_back_inside (zn : Zone K) (p : Particle K)
+    (hn : zn.nx * zn.nx + zn.ny * zn.ny + zn.nz * zn.nz = 1)
+    (hlo : zn.eps - zn.len < signedDist zn p) (hhi : signedDist zn p < zn.eps) :
+    (evalOne zn zn.len (shiftUp zn p)).ioid = 1 := by
+  simp only [evalOne]
+  rw [zoneId_eq_one_iff, signedDist_shiftUp, hn]
+  constructor <;> linarith
+
+/-- **moved more than one zone length in a step** (stated separately, as the
+property does): the recycled original is still on the fluid side, so the next
+update call copies it again — one copy per update call, each copy of a
+"new" recycled particle -/
+theorem overshoot_still_outside (zn : Zone K) (p : Particle K) (hL : 0 ≤ zn.len)
+    (hn : zn.nx * zn.nx + zn.ny * zn.ny + zn.nz * zn.nz = 1)
+    (h : signedDist zn p + zn.len ≤ zn.eps) :
+    (evalOne zn zn.len (shiftUp zn p)).ioid = 0 := by
+  simp only [evalOne]
+  rw [zoneId_eq_zero_iff _ _ _ hL, signedDist_shiftUp, hn]
+  left; linarith
+
+/-- the ghost of the inlet stays the mirror image of its inlet particle when
+both are recycled (unit normal): reflecting the recycled original gives the
+ghost shifted by `-length·normal` -/
+theorem ghost_stays_mirror_image (zn : Zone K) (p : Particle K)
+    (hn : zn.nx * zn.nx + zn.ny * zn.ny + zn.nz * zn.nz = 1) :
+    (reflect zn (shiftUp zn p)).x = (shiftDown zn (reflect zn p)).x ∧
+    (reflect zn (shiftUp zn p)).y = (shiftDown zn (reflect zn p)).y ∧
+    (reflect zn (shiftUp zn p)).z = (shiftDown zn (reflect zn p)).z := by
+  have key : signedDist zn (shiftUp zn p) = signedDist zn p + zn.len := by
+    rw [signedDist_shiftUp, hn]; ring
+  simp only [reflect, shiftDown, key]
+  simp only [shiftUp]
+  refine ⟨by ring, by ring, by ring⟩
+
+end field
+
+/-! ## non-vacuity: concrete states meeting the hypotheses (tests, not claims) -/
+section examples
+
+/-- inlet zone `-1/2 < x < 0` (normal `-x`), outlet zone `1 < x < 3/2` -/
+def exZin : Zone Rat := ⟨0, 0, 0, -1, 0, 0, 1/2, 1/1000000, 1000⟩
+def exZout : Zone Rat := ⟨1, 0, 0, 1, 0, 0, 1/2, 1/1000000, 1000⟩
+def exP (x : Rat) (lbl : Int) (tag : Int := 0) : Particle Rat := ⟨x, 0, 0, 1, 0, 0, tag, lbl, 7⟩
+def exCfg : Cfg Rat := ⟨exZin, exZout, exP 0 0, exP 0 0, exP 0 0, Mask.all, 1/2⟩
+def exState : State Rat :=
+  { inlet := [exP (-3/8) 1, exP (1/8) 2, exP (1/4) 3, exP (1/16) 4 2],
+    ghostIn := some [exP (3/8) 1, exP (-1/8) 2, exP (-1/4) 3, exP (-1/16) 4],
+    fluid := [exP (1/2) 11, exP (9/8) 12, exP (5/4) 13 2, exP (3/4) 14],
+    outlet := [exP (5/4) 21, exP (13/8) 22], ghostOut := none, urefIn := 1, urefFluid := 0 }
+
+/-- two Local inlet particles cross together (the ghost-tagged one does not
+count); they are copied once each and recycled by `length` -/
+example : (inletBody exZin (exP 0 0) exState).map
+      (fun s => (s.fluid.map (·.lbl), s.inlet.map (·.x), (s.ghostIn.getD []).map (·.x)))
+    = some ([11, 12, 14, 2, 3, 13], [-3/8, -3/8, -1/4, 1/16], [3/8, 3/8, 1/4, -1/16]) := by
+  decide +kernel
+
+example : (crossing exZin exState).map (·.lbl) = [2, 3] := by decide +kernel
+
+/-- one fluid particle moves to the outlet, one outlet particle is deleted -/
+example : (outletBody exZout Mask.all (exP 0 0) exState).map
+      (fun s => (s.fluid.map (·.lbl), s.outlet.map (·.lbl)))
+    = some ([11, 14, 13], [21, 12]) := by
+  decide +kernel
+
+example : (leaving exZout exState).map (·.lbl) = [12] ∧
+    (deleted exZout Mask.all (exP 0 0) exState).map (·.lbl) = [22] := by decide +kernel
+
+/-- a history with a move, both updates, an inactive stage and the hybrid and
+mirror classes: the account is non-trivial -/
+example : (run exCfg [.inlet true, .outlet true, .move ⟨fun _ p => p, fun _ p => p,
+        fun _ p => { p with x := p.x + 1/2 }, fun _ p => p, fun _ p => p⟩,
+        .outlet false, .mirrorOutlet true, .hybridInlet true] (exState, ⟨0, 0⟩)).map
+      (fun sa => (sa.1.fluid.length, sa.2.entered, sa.2.left))
+    = some (4, 4, 4) := by
+  decide +kernel
+
+/-- overshoot: moved more than a zone length, still outside after recycling -/
+example : (evalOne exZin exZin.len (shiftUp exZin (exP (3/4) 5))).ioid = 0 := by decide +kernel
+
+end examples
 
 end PysphVerif.Props.C16
